@@ -27,7 +27,7 @@ def ifaces_in(traces):
     for tr in traces:
         for e in tr['events']:
             ev = e['in']
-            if ev['e'] == 'msg':
+            if ev['e'] in ('msg', 'hit'):
                 s.add(ev['m']['ttype'])
                 for a in ev['m']['args']:
                     if a['k'] in ('obj', 'new') and a['type']:
@@ -69,11 +69,11 @@ def clean(traces):
     return c(traces)
 
 
-def validate_parallel(traces, name='session', jobs=8, chunk=60):
+def validate_parallel(traces, name='session', jobs=8, chunk=60, spec=('TraceSession.tla', 'TraceSession.cfg')):
     """validate in several TLC processes; returns one merged Verdict (trace indexes global)"""
     from concurrent.futures import ThreadPoolExecutor
     if len(traces) <= chunk:
-        return validate(traces, name=name)
+        return validate(traces, name=name, spec=spec)
     parts = [(i, traces[i:i + chunk]) for i in range(0, len(traces), chunk)]
     # fewer, larger parts than jobs make no sense: rebalance
     if len(parts) > jobs:
@@ -82,7 +82,7 @@ def validate_parallel(traces, name='session', jobs=8, chunk=60):
         parts = [(i, traces[i:i + size]) for i in range(0, len(traces), size)]
     out = Verdict()
     with ThreadPoolExecutor(max_workers=jobs) as ex:
-        results = list(ex.map(lambda p: (p[0], validate(p[1], name='%s-%d' % (name, p[0]))), parts))
+        results = list(ex.map(lambda p: (p[0], validate(p[1], name='%s-%d' % (name, p[0]), spec=spec)), parts))
     for off, v in results:
         out.fails += [(t + off, l, a) for t, l, a in v.fails]
         out.done |= {t + off for t in v.done}
@@ -94,7 +94,7 @@ def validate_parallel(traces, name='session', jobs=8, chunk=60):
     return out
 
 
-def validate(traces, name='session', keep=False, workers=1):
+def validate(traces, name='session', keep=False, workers=1, spec=('TraceSession.tla', 'TraceSession.cfg')):
     os.makedirs(TMP, exist_ok=True)
     traces = clean(traces)
     pd = protoextract.load()
@@ -118,7 +118,7 @@ def validate(traces, name='session', keep=False, workers=1):
     v.ntraces = len(traces)
     v.nsteps = sum(len(t['events']) for t in traces)
     try:
-        r = tlc.run_tlc('TraceSession.tla', cfg='TraceSession.cfg', env={'TRACE_FILE': path}, workers=workers)
+        r = tlc.run_tlc(spec[0], cfg=spec[1], env={'TRACE_FILE': path}, workers=workers)
     finally:
         if not keep:
             try:
